@@ -215,7 +215,18 @@ def analyse(ctx):
     if hasattr(ctx, "_serve_model"):
         return ctx._serve_model
     serve, inner = find_serve(ctx)
-    inl = lambda c, d: takes_builder(ctx, c.get("res_path")) or is_cast_helper(ctx, c.get("res_path"))
+    # crate-local helpers are expanded (builder-taking helpers, cast helpers, anything a maintainer extracts); the units
+    # with rules of their own stay calls: the conditional-header function, the range parser, the tag comparators
+    from .common import helper_inline
+    from . import rangeparse as RP
+    never = set(RP.find_parser(ctx)[2])
+    for n_, b_ in ctx.facts.bodies.items():
+        rs = b_["locals"][0]["s"]
+        if "Result<(bool, bool)" in rs:
+            never.add(n_)
+        if rs == "bool" and b_["arg_count"] == 2 and all(b_["locals"][i]["s"].endswith("[u8]") for i in (1, 2)):
+            never.add(n_)
+    inl = helper_inline(ctx, never=never)
     ib = ctx.facts.bodies[inner]
     METHOD_PARAMS.clear()
     for i in range(1, ib["arg_count"] + 1):
@@ -699,8 +710,10 @@ def c03_estimate(ctx, M):
     """multipart iff estimate < L, estimate = sum(c + (end-start)) with checked adds, 0 <= c <= 160 (`<`) or 1 <= c (`<=`)"""
     inner = M["inner"]
     # find the fold closure: a closure body of `inner` with two non-env params (acc, &Range)
-    clos = [n for n, b in ctx.facts.bodies.items() if n.startswith(inner + "::{closure") and b["kind"] == "closure" and b["arg_count"] == 3
-            and "Range<u64>" in b["locals"][3]["s"]]
+    from .common import reachable_bodies
+    reach = reachable_bodies(ctx.facts, [inner])
+    clos = [n for n, b in ctx.facts.bodies.items() if n in reach and b["kind"] == "closure" and b["arg_count"] == 3
+            and b["locals"][2]["s"] == "u64" and "Range<u64>" in b["locals"][3]["s"]]
     if len(clos) != 1:
         ctx.violation("C03.R5", "C03.R5|estimate-closure", "UNRECOGNISED: expected one fold closure (acc, &Range<u64>) in %s, found %d" % (inner, len(clos)))
         return
